@@ -279,8 +279,8 @@ def c037(ctx, rid='C03.7'):
     """the recorded-frames buffers (session, task) are what the per-session snapshot and the
     catch-up replay are written from: they only grow."""
     P = ctx.prog
-    ctx.rule(rid, 'recorded history only grows: no shrinking operation (drain / truncate / clear / remove / pop / retain / split_off / swap_remove / dedup) is applied to a Vec<Event> reached through a mutex guard (the session and task history buffers the snapshot and the catch-up replay are written from); a trimmed buffer yields a snapshot without its head while the log and the live stream carried every frame.')
-    SHRINK = r'alloc::vec::Vec::<T, A>::(drain|truncate|clear|remove|pop|retain|retain_mut|split_off|swap_remove|dedup\w*)$'
+    ctx.rule(rid, 'recorded history only grows: no shrinking operation (drain / truncate / clear / remove / pop / retain / split_off / swap_remove / dedup, mem::take / replace / swap, a whole-buffer assignment) is applied to a Vec<Event> reached through a mutex guard (the session and task history buffers the snapshot and the catch-up replay are written from); a trimmed buffer yields a snapshot without its head while the log and the live stream carried every frame.')
+    SHRINK = r'alloc::vec::Vec::<T, A>::(drain|truncate|clear|remove|pop|retain|retain_mut|split_off|swap_remove|dedup\w*)$|^core::mem::(take|replace|swap)$'
     GROW = r'alloc::vec::Vec::<T, A>::(push|extend|extend_from_slice|append)$'
     DER = (r'::deref_mut$', r'::deref$', r'::as_mut$')
     grows, shrinks = [], []
@@ -288,7 +288,7 @@ def c037(ctx, rid='C03.7'):
         if f.crate not in ('ripd', 'rip_log', 'rip_kernel'):
             continue
         for s_ in f.sites():
-            if 'rip_kernel::Event' not in (s_.full or '') or not s_.args:
+            if ('rip_kernel::Event' not in (s_.full or '') and not any('rip_kernel::Event' in x for x in s_.ga)) or not s_.args:
                 continue
             kind = 'shrink' if re.search(SHRINK, s_.callee) else ('grow' if re.search(GROW, s_.callee) else None)
             if kind is None:
@@ -297,6 +297,15 @@ def c037(ctx, rid='C03.7'):
             if r is None or not re.search(r'MutexGuard<.*alloc::vec::Vec<rip_kernel::Event>>', f.lty(r)):
                 continue
             (shrinks if kind == 'shrink' else grows).append((f, s_))
+        # `*guard = other`: the buffer is replaced wholesale (MIR: an assignment through the &mut Vec<Event> a guard derefs to)
+        for bi in f.reachable():
+            blk = f.blocks[bi]
+            for st in blk['s']:
+                d = st.get('d') or {}
+                if d.get('p') == ['*'] and 'rv' in st and re.search(r'^&mut alloc::vec::Vec<rip_kernel::Event>$', f.lty(d['l']) or ''):
+                    r = f.root_local({'c': {'l': d['l']}}, through_calls=DER)
+                    if r is not None and re.search(r'MutexGuard<.*alloc::vec::Vec<rip_kernel::Event>>', f.lty(r) or ''):
+                        shrinks.append((f, type('A', (), {'name': 'a whole-buffer assignment', 'line': st.get('ln')})()))
     ctx.floor(rid, 'pushes into a guarded history buffer (the buffers the rule protects)', len(grows), 2)
     for f, s_ in grows:
         ctx.touch(f)
